@@ -897,8 +897,14 @@ func runCheck(id, tier string) int {
 		"assumptions": tot.Assume, "wall_s": wall, "violations": len(newViol),
 	}
 	eb, _ := json.MarshalIndent(ev, "", " ")
-	os.MkdirAll(filepath.Join(verifDir, "evidence"), 0o755)
-	if err := os.WriteFile(filepath.Join(verifDir, "evidence", id+".json"), eb, 0o644); err != nil {
+	// evidence is only for runs against /repo itself; runs against a scratch copy
+	// (VERIF_REPO, mutation experiments) must not overwrite it
+	evDir := filepath.Join(verifDir, "evidence")
+	if repoDir != "/repo" {
+		evDir = filepath.Join(verifDir, "build", "evidence-scratch")
+	}
+	os.MkdirAll(evDir, 0o755)
+	if err := os.WriteFile(filepath.Join(evDir, id+".json"), eb, 0o644); err != nil {
 		fatal2("write evidence: %v", err)
 	}
 	fmt.Printf("%s %s: runs=%d nontrivial=%d distinct=%d steps=%d sim=%.0fs outcomes=%v wall=%.1fs (build %.1fs)\n",
